@@ -6,3 +6,6 @@ const RaceBuild = false
 
 func raceDisable() {}
 func raceEnable()  {}
+
+func spawn(fn func()) { go fn() }
+func releasePool()    {}
